@@ -344,7 +344,7 @@ func init() {
 		}})
 	register(&PropCheck{ID: "C17", Level: "model_checking",
 		Rule:        "the executions of the run, cancel, provider-level, loop and overlapping-run checks (their quick bounds) are repeated on a build with memory-access probes on every field of the engine's own struct types reached through a pointer, every map and slice element and every package variable; a vector-clock (happens-before) detector reports two accesses to one location, one of them a write, that no tracked synchronisation orders, on any explored schedule whether or not the accesses were adjacent",
-		Assumptions: append([]string{"reads that follow a call inside one statement and loop conditions are not probed (counted by the rewriter: unprobed-read-after-call)", "locations inside third-party libraries are not probed; their internal locks add no happens-before edges"}, commonAssumptions...),
+		Assumptions: append([]string{"reads that follow a call inside one statement and loop conditions are probed where they are evaluated (rewritten to *vrt.AccR(site, &x.f, name)); accesses through pointers to fields taken with & and passed elsewhere are not followed", "locations inside third-party libraries are not probed; their internal locks add no happens-before edges"}, commonAssumptions...),
 		Budget:      budget(175*time.Second, 28*time.Minute),
 		Units: func(tier string) []*Unit {
 			raceMode = true
